@@ -10,7 +10,7 @@ from .model import dec_str, enc_str, run_driver
 CLAUSE_FINDING = {
     1: "escape-order", 3: "reserved-segment", 4: "annotation-qualifier", 10: "frontmatter-sentinel",
     11: "bare-zone-sibling", 12: "bare-zone-comments", 13: "empty-body-comment", 14: "comment-dedent",
-    15: "nonfinite-float",
+    15: "nonfinite-float", 18: "single-item-constraint-list",
 }
 MODEL_SCOPE = {20, 21}
 
@@ -51,18 +51,31 @@ def nfc_escape_clause_doc(d):
     return False
 
 
+def ok_string_set(ctx):
+    """pool strings the model classifies as falsifying no scalar clause (None when the model is unavailable)"""
+    if not have_model(ctx):
+        return None
+    import unicodedata
+    pool = sorted(set(docgen.WORDS + docgen.SPECIAL_STR))
+    res = run_driver("syn", ["sclass 0 " + enc_str(s) for s in pool] + ["sclass 1 " + enc_str(s) for s in pool])
+    return {s for i, s in enumerate(pool) if res[i] == "0" and res[len(pool) + i] == "0"}
+
+
 def gen_docs(ctx, n, valid_fraction=0.7, depth=4):
     """n content-model documents; about valid_fraction of them falsify no clause."""
     rng = ctx.rng
+    use_model = have_model(ctx)
+    ok_strings = ok_string_set(ctx)
+    g_clean = docgen.Gen(rng, wild=False, max_depth=depth, clean=True, ok_strings=ok_strings)
     g = docgen.Gen(rng, wild=False, max_depth=depth)
     docs = []
     tries = 0
     want_valid = int(n * valid_fraction)
     pool_valid, pool_other = [], []
-    use_model = have_model(ctx)
     while (len(pool_valid) < want_valid or len(pool_other) < n - want_valid) and tries < 40:
         tries += 1
-        batch = [d for d in (g.doc() for _ in range(n)) if docprops.in_content_model(d)]
+        gen = g_clean if len(pool_valid) < want_valid and (tries % 2 == 1 or len(pool_other) >= n - want_valid) else g
+        batch = [d for d in (gen.doc() for _ in range(n)) if docprops.in_content_model(d)]
         cls = model_clauses(batch) if use_model else [[0]] * len(batch)
         for d, c in zip(batch, cls):
             c = list(c)
